@@ -90,29 +90,33 @@ NOT_BY_NAME = BUILTIN_METHOD_NAMES | NDARRAY_METHODS | _BUILTIN_TYPE_METHODS \
 
 def deref(val, attr=None):
     out = set()
-    for root, dep, lay, fld in val:
+    for root, dep, lay, fld, hfl in val:
         if lay == 0:
             out.add((root, min(dep + 1, DCAP), 0,
-                     attr if (dep == 0 and attr) else fld))
+                     attr if (dep == 0 and attr) else fld, None))
+        elif hfl is not None and attr is not None and attr != hfl:
+            # the shared part sits under another field of the fresh object
+            continue
         elif lay >= FAR:
-            out.add((root, dep, FAR, fld))
+            out.add((root, dep, FAR, fld, None))
         else:
-            out.add((root, dep, lay - 1, fld))
+            out.add((root, dep, lay - 1, fld, None))
     return frozenset(out)
 
 
 def shallow(val):
     out = set()
-    for root, dep, lay, fld in val:
+    for root, dep, lay, fld, hfl in val:
         if lay == 0:
-            out.add((root, min(dep + 1, DCAP), 1, fld))
+            out.add((root, min(dep + 1, DCAP), 1, fld, None))
         else:
-            out.add((root, dep, lay, fld))
+            out.add((root, dep, lay, fld, hfl))
     return frozenset(out)
 
 
-def wrap(val):
-    return frozenset((r, d, min(n + 1, FAR), f) for r, d, n, f in val)
+def wrap(val, holder=None):
+    return frozenset((r, d, min(n + 1, FAR), f, holder)
+                     for r, d, n, f, _h in val)
 
 
 EMPTY = frozenset()
@@ -152,6 +156,8 @@ class Summary:
         self.effects = []       # Effect on own params
         self.returns = EMPTY    # value over own params
         self.undecided = []     # texts
+        self.fields = None      # __init__ only: what the new object holds
+        self.field_map = {}     # __init__ only: field -> value at exit
 
     def write_depths(self):
         out = {}
@@ -178,6 +184,7 @@ class Analyzer:
         self.calls_resolved = 0
         self.calls_unresolved = 0
         self.functions_analysed = 0
+        self._field_types = {}
         self.properties = {}
         for cinfo in program.all_classes():
             for meth in cinfo.methods.values():
@@ -185,6 +192,34 @@ class Analyzer:
                                   'functools.cached_property')
                        for d in meth.node.decorator_list):
                     self.properties.setdefault(meth.name, []).append(meth)
+
+    def field_type(self, cinfo, field):
+        '''ClassInfo of self.<field> when every assignment of the field in
+        the class hierarchy is a constructor call of one repo class.'''
+        key = (cinfo.key, field)
+        if key in self._field_types:
+            return self._field_types[key]
+        found = []
+        for klass in self.program.mro(cinfo):
+            for meth in klass.methods.values():
+                for node in ast.walk(meth.node):
+                    if isinstance(node, ast.Assign) and len(
+                            node.targets) == 1 and isinstance(
+                                node.targets[0], ast.Attribute) and \
+                            node.targets[0].attr == field and isinstance(
+                                node.targets[0].value, ast.Name) and \
+                            node.targets[0].value.id == 'self':
+                        typ = None
+                        if isinstance(node.value, ast.Call):
+                            res = self.program.resolve_name_expr(
+                                meth.module, node.value.func, meth)
+                            if isinstance(res, ClassInfo):
+                                typ = res
+                        found.append(typ)
+        out = found[0] if found and found[0] is not None and all(
+            t is found[0] for t in found) else None
+        self._field_types[key] = out
+        return out
 
     def summary(self, func, depth=0):
         if func.key in self.cache:
@@ -270,16 +305,16 @@ class _FuncAnalysis:
         args = node.args
         params = [a.arg for a in args.posonlyargs + args.args]
         for idx, name in enumerate(params):
-            init[name] = frozenset({(idx, 0, 0, None)})
+            init[name] = frozenset({(idx, 0, 0, None, None)})
         base = len(params)
         if args.vararg:
-            init[args.vararg.arg] = frozenset({(base, 0, 1, None)})
+            init[args.vararg.arg] = frozenset({(base, 0, 1, None, None)})
             base += 1
         for kwo in args.kwonlyargs:
-            init[kwo.arg] = frozenset({(base, 0, 0, None)})
+            init[kwo.arg] = frozenset({(base, 0, 0, None, None)})
             base += 1
         if args.kwarg:
-            init[args.kwarg.arg] = frozenset({(base, 0, 1, None)})
+            init[args.kwarg.arg] = frozenset({(base, 0, 1, None, None)})
         self.param_names = params + ([args.vararg.arg] if args.vararg
                                      else []) + \
             [a.arg for a in args.kwonlyargs] + \
@@ -289,9 +324,22 @@ class _FuncAnalysis:
         def transfer(nod, state, label):
             return self._transfer(nod, state, label)
 
-        forward_dataflow(cfg, init, transfer, _join)
+        states = forward_dataflow(cfg, init, transfer, _join)
         self.summary.returns = frozenset(
             v for v in self.ret if isinstance(v[0], int))
+        if self.func.name == '__init__' and params:
+            held = set()
+            final = dict(states.get(cfg.exit.id, ()))
+            for name, val in final.items():
+                if name == params[0]:
+                    held |= {v for v in val if v[:3] != (0, 0, 0)}
+                elif name.startswith(params[0] + '.'):
+                    held |= wrap(val)
+            self.summary.fields = frozenset(
+                v for v in held if isinstance(v[0], int) and v[0] != 0)
+            self.summary.field_map = {
+                name.split('.', 1)[1]: val for name, val in final.items()
+                if name.startswith(params[0] + '.')}
         return self.summary
 
     # -- statement transfer ------------------------------------------------
@@ -465,7 +513,7 @@ class _FuncAnalysis:
         self.summary.effects.append(eff)
 
     def _write(self, val, node, what, kind='write'):
-        for root, dep, lay, fld in val:
+        for root, dep, lay, fld, _hfl in val:
             if lay == 0 and isinstance(root, int):
                 self._record(Effect(root, dep, getattr(node, 'lineno', 0),
                                     what, self.func, (), kind, fld))
@@ -486,7 +534,14 @@ class _FuncAnalysis:
         return EMPTY
 
     def _ev_Name(self, expr, env):
-        return env.get(expr.id, EMPTY)
+        val = env.get(expr.id, EMPTY)
+        # what was stored into the fields of this (local) object is
+        # reachable from it
+        prefix = expr.id + '.'
+        for key, fval in env.items():
+            if key.startswith(prefix) and fval:
+                val = val | wrap(fval, holder=key[len(prefix):])
+        return val
 
     def _ev_Constant(self, expr, env):
         return EMPTY
@@ -539,7 +594,7 @@ class _FuncAnalysis:
                             f'{txt(expr)[:50]}', kind='dd-insert')
             elif origin == 'opaque' and any(
                     lay == 0 and isinstance(root, int)
-                    for root, _d, lay, _f in base):
+                    for root, _d, lay, _f, _h in base):
                 self.summary.undecided.append(
                     f'{self.func.key}: read of defaultdict {txt(expr)[:50]} '
                     f'with a key of unknown origin '
@@ -672,7 +727,9 @@ class _FuncAnalysis:
                                  'update', 'setdefault', 'appendleft') and \
                             rkey is not None:
                         add = EMPTY
-                        for val in argvals:
+                        contents = argvals[1:] if cname in (
+                            'setdefault', 'insert') else argvals
+                        for val in contents:
                             add |= wrap(val) if cname not in (
                                 'extend', 'update') else shallow(val)
                         env[rkey] = env.get(rkey, EMPTY) | add
@@ -707,6 +764,13 @@ class _FuncAnalysis:
                 return EMPTY
             return EMPTY
         # plain name call
+        if cname in ('dict', 'OrderedDict') and len(call.args) == 1 and \
+                isinstance(call.args[0], (ast.GeneratorExp, ast.ListComp)) \
+                and isinstance(call.args[0].elt, ast.Tuple) and len(
+                    call.args[0].elt.elts) == 2:
+            comp = call.args[0]
+            return self._comp(comp, env, lambda loc: wrap(self.ev(
+                comp.elt.elts[1], loc)))
         if cname in SHALLOW_COPY_FUNCS and argvals:
             out = EMPTY
             for val in argvals:
@@ -743,6 +807,21 @@ class _FuncAnalysis:
             meth = self.program.find_method(self.local_types[recv.id], cname)
             if meth is not None:
                 return [(meth, True, False)]
+        # typed field receiver: self.<field>.<method>(...)
+        if isinstance(recv, ast.Attribute) and isinstance(
+                recv.value, ast.Name) and recv.value.id == 'self' and \
+                func.cls is not None:
+            ftype = self.an.field_type(func.cls, recv.attr)
+            if ftype is not None:
+                meth = self.program.find_method(ftype, cname)
+                if meth is not None:
+                    return [(meth, True, False)]
+        if isinstance(recv, ast.Call):
+            rtype = self._returned_class(recv)
+            if rtype is not None:
+                meth = self.program.find_method(rtype, cname)
+                if meth is not None:
+                    return [(meth, True, False)]
         cands, how = self.program.resolve_call(func, call)
         if not cands:
             return []
@@ -764,6 +843,34 @@ class _FuncAnalysis:
                 out.append((cand, False, False))
             return out
         return []
+
+    def _returned_class(self, call):
+        '''Class of the object returned by `call` when the callee is a repo
+        function all of whose returns are constructor calls of one class
+        (`return DepGraph(...)`, `return cls(...)`).'''
+        inner = self._resolve(call, receiver(call))
+        if len(inner) != 1:
+            return None
+        callee, _bound, is_ctor = inner[0]
+        if is_ctor:
+            return callee.cls
+        found = set()
+        for node in ast.walk(callee.node):
+            if isinstance(node, ast.Return) and node.value is not None:
+                val = node.value
+                if isinstance(val, ast.Call):
+                    if txt(val.func) in ('cls', 'self.__class__',
+                                         'type(self)'):
+                        found.add(callee.cls)
+                        continue
+                    res = self.program.resolve_name_expr(
+                        callee.module, val.func, callee)
+                    found.add(res if isinstance(res, ClassInfo) else None)
+                else:
+                    found.add(None)
+        if len(found) == 1 and None not in found:
+            return found.pop()
+        return None
 
     def _apply(self, callee, bound, is_ctor, call, recv_val, argvals,
                kwvals, recv_node=None, arg_nodes=(), env=None):
@@ -832,9 +939,12 @@ class _FuncAnalysis:
         lineno = getattr(call, 'lineno', 0)
         for eff in summ.effects:
             val, rem, fld0 = located(eff.root, eff.depth, eff.field)
-            for root, dep, lay, fld in val:
+            for root, dep, lay, fld, hfl in val:
                 if not isinstance(root, int):
                     continue
+                if lay >= 1 and hfl is not None and fld0 is not None and \
+                        fld0 != hfl:
+                    continue      # the effect goes through another field
                 if rem >= lay or eff.depth >= DCAP:
                     ndep = min(dep + max(rem - lay, 0), DCAP)
                     nfld = fld if fld is not None else (
@@ -846,23 +956,40 @@ class _FuncAnalysis:
         for und in summ.undecided:
             if und not in self.summary.undecided:
                 self.summary.undecided.append(und)
-        if is_ctor:
+        if is_ctor and summ.fields is None:
             out = EMPTY
             for idx, val in binding.items():
                 if idx != 0:
                     out |= wrap(val)
             return out
-        out = set()
-        for jroot, dret, nret, fret in summ.returns:
-            val, rem, fld0 = located(jroot, dret, fret)
-            for root, dep, lay, fld in val:
-                if rem >= lay:
-                    nfld = fld if fld is not None else (
-                        fld0 if dep == 0 and lay == 0 else None)
-                    out.add((root, min(dep + rem - lay, DCAP), nret, nfld))
-                else:
-                    out.add((root, dep, min(nret + lay - rem, FAR), fld))
-        return frozenset(out)
+
+        def mapped(rets, holder=None):
+            out = set()
+            for jroot, dret, nret, fret, hret in rets:
+                val, rem, fld0 = located(jroot, dret, fret)
+                for root, dep, lay, fld, hfl in val:
+                    if lay >= 1 and hfl is not None and fld0 is not None \
+                            and fld0 != hfl and rem >= 1:
+                        continue
+                    if rem >= lay:
+                        nfld = fld if fld is not None else (
+                            fld0 if dep == 0 and lay == 0 else None)
+                        out.add((root, min(dep + rem - lay, DCAP), nret,
+                                 nfld, holder if holder else hret))
+                    else:
+                        out.add((root, dep, min(nret + lay - rem, FAR), fld,
+                                 holder if holder else (
+                                     hfl if nret == 0 else hret)))
+            return out
+        if is_ctor:
+            out = set()
+            for fname, fval in summ.field_map.items():
+                out |= mapped(wrap(fval), holder=fname)
+            out |= mapped(summ.fields - frozenset().union(*(
+                wrap(v) for v in summ.field_map.values()))
+                          if summ.field_map else summ.fields)
+            return frozenset(out)
+        return frozenset(mapped(summ.returns))
 
 
 def _as_load(node):
